@@ -63,6 +63,14 @@ def seq(case):
                                         got=[np.asarray(g).tolist() for g in got[:3]], expected=[np.asarray(w).tolist() for w in want[:3]],
                                         counts=(len(got), len(want))))
                         break
+    # zero steps are dropped: an array step with a zero in ANY component is not yielded (it would give 0/0 there)
+    for cls, o, x, want_n in ((sg.MinStepGenerator, dict(base_step=np.array([0.0, 0.25]), num_steps=3), np.array([0.5, 0.7]), 0),
+                              (sg.MaxStepGenerator, dict(base_step=1e-320, step_ratio=2.0, num_steps=15), np.array([0.0, 1e6]), None)):
+        got = [np.asarray(s_) for s_ in cls(**o)(x, 'forward', 1, 2)]
+        with_zero = [g.tolist() for g in got if np.any(g == 0)]
+        if with_zero or (want_n is not None and len(got) != want_n):
+            bad.append(dict(cls=cls.__name__, options={k: (v.tolist() if isinstance(v, np.ndarray) else v) for k, v in o.items()}, x=x.tolist(), yielded=len(got),
+                            steps_with_a_zero_component=with_zero[:2]))
     return dict(reproduced=bool(bad), failing=bad[:3], statement='generated steps == base_step*step_nom*step_ratio**(+-i+offset)')
 
 
@@ -150,3 +158,29 @@ def misc(case):
         if r2['reproduced']:
             return r2
     return r
+
+
+@reg('C10.reuse')
+def reuse(case):
+    """one generator object used for several (method, n, order): each sequence equals the documented closed form for THAT call"""
+    import numdifftools.step_generators as sg
+    EPS = np.finfo(float).eps
+    bad = []
+    calls = [('forward', 1, 2), ('central', 3, 4), ('complex', 1, 2), ('central', 2, 2), ('complex', 2, 4), ('complex', 4, 4), ('central', 4, 2), ('forward', 3, 2)]
+    for order_of_calls in (calls, calls[::-1]):
+        g = sg.MinStepGenerator(num_steps=5)
+        for (m_, n_, o_) in order_of_calls:
+            got = [float(s_) for s_ in g(0.7, m_, n_, o_)]
+            ratio = 2.0 if n_ == 1 else 1.6
+            fresh = [float(s_) for s_ in sg.MinStepGenerator(num_steps=5)(0.7, m_, n_, o_)]
+            rat = [got[i] / got[i + 1] for i in range(len(got) - 1)]
+            if len(got) != len(fresh) or not np.allclose(got, fresh, rtol=1e-12, atol=0) or (len(set(order_of_calls)) == len(order_of_calls) and not np.allclose(rat, ratio, rtol=1e-6)):
+                bad.append(dict(history=[c for c in order_of_calls[:order_of_calls.index((m_, n_, o_)) + 1]], call=(m_, n_, o_), steps=got[:4], fresh_generator=fresh[:4], documented_ratio=ratio))
+                break
+    user = np.array([0.01, 0.02]); keep = user.copy()
+    g = sg.MinStepGenerator(base_step=user, num_steps=3)
+    first = [np.array(s_) for s_ in g(np.array([0.3, -20.0]), 'forward', 1, 2)]
+    second = [np.array(s_) for s_ in g(np.array([0.3, -20.0]), 'forward', 1, 2)]
+    if not np.array_equal(user, keep) or not all(np.array_equal(a_, b_) for a_, b_ in zip(first, second)):
+        bad.append(dict(what='array given as base_step', caller_array_after_two_calls=user.tolist(), was=keep.tolist(), first_call=[a_.tolist() for a_ in first[:2]], second_call=[a_.tolist() for a_ in second[:2]]))
+    return dict(reproduced=bool(bad), failing=bad[:3])
